@@ -173,6 +173,16 @@ def forms(word, bits, hi):
             yield f'constant int literal [{k}]', [(Index(ArrLit([Lit(INT, 10), Lit(INT, 20), Lit(INT, 30)], INT, True), Lit(INT, k)), 'value')], {}
             yield f'constant bool literal [{k}]', [(Index(ArrLit([Lit(BOOL, True), Lit(BOOL, False), Lit(BOOL, True)], BOOL, True), Lit(INT, k)), 'branch')], {}
             yield f'local array [{k}]', [(Index(Var('ra', Arr(INT, False)), Lit(INT, k)), 'value')], {}
+        if 0 <= k <= 11:
+            # a bit-vector element read through a constant index and used as a VALUE (strict 0/1), from a constant table, a stack
+            # literal with a run-time element, and a dynamic array
+            bits12 = [True, False, True, True, False, False, True, False, True, True, False, True]
+            ct = ArrLit([Lit(BOOL, b) for b in bits12], BOOL, True)
+            yield f'constant bool table [{k}] as value', [(Cast(Index(ct, Lit(INT, k)), INT), 'value'), (Bin('==', Index(ArrLit([Lit(BOOL, b) for b in bits12], BOOL, True), Lit(INT, k)), Lit(BOOL, True)), 'value'),
+                                                          (Un('not', Index(ArrLit([Lit(BOOL, b) for b in bits12], BOOL, True), Lit(INT, k))), 'decl')], {}
+            st = lambda: ArrLit([Bin('>', Var('rv', INT), Lit(INT, 0))] + [Lit(BOOL, b) for b in bits12[1:]], BOOL, True)      # noqa: E731
+            yield f'stack bool literal [{k}] as value', [(Cast(Index(st(), Lit(INT, k)), INT), 'value'), (Bin('==', Index(st(), Lit(INT, k)), Lit(BOOL, True)), 'value'),
+                                                         (Bin('+', Cast(Index(st(), Lit(INT, k)), INT), Cast(Cast(Index(st(), Lit(INT, k)), BYTE), INT)), 'value')], {}
         if -3 <= k <= 3:
             yield f'length of string slice [{k}]', [(Bin('+', Len(S()), Cast(Index(S(), Lit(INT, k)), INT)), 'value')], {}
     rv = Var('rv', INT)
@@ -414,7 +424,7 @@ def run_shard(spec):
         from ..gen import idioms
         for gen, argsets, stride in ((idioms.fresh_literal_programs, idioms.FRESH_ARGS, 1), (idioms.capture_programs, idioms.CAPTURE_ARGS[:1], 9),
                                      (idioms.operand_programs, idioms.OPERAND_ARGS[:1], 4), (idioms.narrowing_programs, idioms.NARROW_ARGS[:2], 3),
-                                     (idioms.table_programs, idioms.TABLE_ARGS, 3)):
+                                     (lambda: idioms.table_programs(keep=False), idioms.TABLE_ARGS, 1), (idioms.bitvector_programs, idioms.BITVECTOR_ARGS[:2], 1)):
             for k, (tag, prog) in enumerate(gen()):
                 if k % stride == 0:
                     for args in argsets:
